@@ -535,8 +535,13 @@ def check_henry(c):
         pq2 = hu.get_P_at_T_and_c(_K(T), cq, **bk)
         ck.quantity("get_P_at_T_and_c(get_c_at_T_and_P(T, P))", pq2, P * atm, D_PRES)
         # plain Henry called with units=...
-        q3 = Henry(Hq, _K(Td), None if T0 is None else _K(T0))(_K(T), units=u, **bk)
+        hp = Henry(Hq, _K(Td), None if T0 is None else _K(T0))
+        q3 = hp(_K(T), units=u, **bk)
         ck.quantity("Henry(...)(T, units=u)", q3, exp_si, D_H)
+        cq3 = hp.get_c_at_T_and_P(_K(T), Pq, units=u, **bk)           # keyword arguments reach __call__
+        ck.quantity("Henry.get_c_at_T_and_P(.., units=u)", cq3, exp * P * 1e3, D_CONC)
+        pq3 = hp.get_P_at_T_and_c(_K(T), _q(exp * P * 1e3, CONC, c["cunit"]), units=u, **bk)
+        ck.quantity("Henry.get_P_at_T_and_c(.., units=u)", pq3, P * atm, D_PRES)
     except O.Unknown:
         raise
     except Exception as e:
